@@ -159,7 +159,8 @@ class PairDownloadTheorem(Contract):
 
 @contract
 class PairExpedited(Contract):
-    """the same pair, payloads of 1..4 declared bytes (expedited): one exchange, the node is told exactly the payload"""
+    """the same pair, payloads of 1..4 declared bytes (expedited), handed over in any chunking: one exchange, the node is
+    told exactly the payload"""
     target = "canopen.sdo.client:WritableStream.write"
     id = "PairExpedited"
     functions = ("canopen.sdo.client:WritableStream.__init__", "canopen.sdo.server:SdoServer.init_download")
@@ -176,7 +177,7 @@ class PairExpedited(Contract):
         w.pre.update(cl=cl, srv=srv, data=data, index=index, sub=sub, declared=True, refused=refused)
         ws = w.run(Call(("new", WS), [cl, index, sub, n, False]))
         w.pre["ws"] = ws
-        return Call(("func", "env.drivers", "write_once_and_close"), [ws, data])
+        return Call(("func", "env.drivers", "download_in_chunks"), [ws, data])
 
     ensures = {"node-told-exactly-the-payload-once": lambda s: PairDownloadTheorem.ok(s)}
 
@@ -460,7 +461,7 @@ class StackRoundTrip(Contract):
 @contract
 class StackRoundTripSmall(Contract):
     """the same stack, payloads of 0..4 bytes (expedited both ways when declared; empty segmented transfer), handed to
-    write() at once"""
+    write() in any chunking"""
     target = "canopen.sdo.client:WritableStream.write"
     id = "StackRoundTripSmall"
     functions = StackRoundTrip.functions
@@ -474,6 +475,6 @@ class StackRoundTripSmall(Contract):
         data = w.bytes("data", n)
         cl, srv, node, net = mk_stack(w, index, sub)
         w.pre.update(cl=cl, srv=srv, node=node, data=data, index=index, sub=sub, declared=declared)
-        return Call(("func", "env.drivers", "write_once_then_upload"), [cl, index, sub, data, n if declared else None])
+        return Call(("func", "env.drivers", "download_then_upload"), [cl, index, sub, data, n if declared else None])
 
     ensures = {"read-back-exactly-what-was-written": lambda s: StackRoundTrip.ok(s)}
